@@ -457,6 +457,10 @@ def gen_py(t, rng: random.Random, overflow: list | None = None):
     if issubclass(t, (Enum, Flag)):
         lo, hi = int_range(t.type) if t.type.size is not None else (0, 1 << 20)
         if issubclass(t, Flag):
+            # Flag(-1) means "all bits": a negative number is not an out-of-range value for a flag
+            if overflow and overflow[0]:
+                overflow[0] = False
+                return t(hi + rng.choice([1, 2, 1000]))
             lo = 0
         return t(pick_int(lo, hi))
     if issubclass(t, Pointer):
